@@ -4,8 +4,8 @@ Pipeline
  (1) regenerate Gen/ExcFlow (handler tuples and handler actions of the anchored code, error(),
      get_loader_exceptions, exit statuses, exit_on_error of internal parsers, live issubclass) and
      Gen/ExcFlowCert (candidate fixed point computed by Drv/ExcFlow.lean), build Props/C03
-     (C03_routing: every designed failure on every call path of any depth conforms or carries the tag of a
-     catalogued origin; C03_exit_codes; C03_model_total_partial; pins of the individual handlers);
+     (C03_routing / C03_routing_full_raising / C03_routing_exiting: every designed failure on every call path of any depth
+     conforms, or - exit_on_error true only - carries the tag of the one catalogued origin left; C03_static_raises; C03_exit_codes; C03_model_total_partial; pins of the individual handlers);
  (2) SEARCH / ORACLE on the real code = the property itself: structured fuzz of parse_args / parse_object /
      parse_string / parse_env / parse_path over a grammar of option names and values, seven parser shapes,
      two loader modes (thorough: four), both exit_on_error modes, stdin closed or empty, stderr captured,
@@ -50,8 +50,9 @@ MANIFEST = {
     "text": "Theorems in lean/Jap/Props/C03.lean prove, from the handler tuples / handler actions / error() / get_loader_exceptions / exit statuses / "
             "issubclass table regenerated from /repo on every run, that every failure a region of the anchored code is designed to raise reaches the "
             "caller of parse_args/parse_object/parse_string/parse_env/parse_path as ArgumentError (exit_on_error false) or exit status 2 (true), on "
-            "every call path of any depth, except for three tagged origins (internal dataclass parser, class-help parser, get_defaults raising ArgumentError itself) that are "
-            "open known findings with refutation witnesses; and that every run of the pipeline model under the hypothesis 'stages raise only what "
+            "every call path of any depth: for exit_on_error false without exception (C03_routing_full_raising), for exit_on_error true except for the one "
+            "tagged origin left (get_defaults raising ArgumentError itself, an open finding with a refutation witness; the internal dataclass parser and "
+            "the class-help parser were repaired by 52e5b95 / 45f35d9 and are kept as regression witnesses on the old tables); and that every run of the pipeline model under the hypothesis 'stages raise only what "
             "they are designed to' ends in ok | ArgumentError | exit 0 | exit 2. For 22 leaf functions (validation functions of the restricted types, "
             "deserializers of the registered types, loaders, import_object, ActionYesNo._boolean_type) the hypothesis is no longer assumed: "
             "C03_static_raises proves that every class in the static over-approximation of what can escape them (explicit raises, failure tables of "
@@ -951,7 +952,9 @@ def chain_of(ex):
     out, cur, hops = [], ex, 0
     while cur is not None and hops < 12:
         fr = frames_of(cur.__traceback__)
-        out.append([type(cur).__name__, [c.__name__ for c in type(cur).__mro__], fr[-1][0] if fr else "?", fr[-1][1] if fr else "?"])
+        # (an exception that was caught in the frame that raised it has a one-frame traceback: it never LEFT that function)
+        if len(fr) >= 2 or hops == 0:
+            out.append([type(cur).__name__, [c.__name__ for c in type(cur).__mro__], fr[-1][0] if fr else "?", fr[-1][1] if fr else "?"])
         cur, hops = (cur.__cause__ or (None if cur.__suppress_context__ else cur.__context__)), hops + 1
     return out
 
